@@ -25,7 +25,14 @@
 (*               abscissa grid x every representation (RET, with the cell map the     *)
 (*               expected sum is formed with; RetLaws);                               *)
 (*  InitP/NextP  representations of tabulated data (DREP) and of interval end points  *)
-(*               per entry point (ETYPE).                                             *)
+(*               per entry point (ETYPE);                                             *)
+(*  InitB/NextB  scale: laws of the tensor sum on rational rules (BlockLaws: additive *)
+(*               over row blocks, product of marginals for separable integrands), the *)
+(*               block loop covers every row once (BlockRefines), grids across the    *)
+(*               2^20-point boundary with their exact integrals (SCALE);              *)
+(*  InitH/NextH  threads: every interleaving of the configure / use steps of NThr     *)
+(*               concurrent calls on the module function or a shared object           *)
+(*               (ThrRefines), exported (THR) for replay with real threads.           *)
 EXTENDS Quadrature, Json
 
 CONSTANTS AMax,        \* interval end points a,b in -AMax..AMax, a # b
@@ -40,6 +47,9 @@ CONSTANTS AMax,        \* interval end points a,b in -AMax..AMax, a # b
           NestNpts,    \* point counts used in re-entrant histories
           MaxNestCalls, MaxDepth,   \* calls per history, calls in progress at once
           NestVariant, \* "local" (correct) | "reread" | "scratch" (deviating)
+          BlockVariant, \* "ceil" (covers every row) | "floor" (deviating)
+          ScaleFull,   \* TRUE: the longer list of big grids
+          NThr, ThrNpts, ThrVariant,   \* threads, their point counts, "private" | "snap" | "late" (deviating)
           DoExport
 
 VARIABLES phase, c, s, m, last
@@ -281,6 +291,74 @@ ChooseEType == /\ phase = "start"
 NextP == ChooseDRep \/ ChooseEType
 NextRP == NextR \/ NextP                 \* both in one run
 
+\* ---- scale --------------------------------------------------------------------------------------
+\* grids across the 2^20-point boundary (block sizes in use are powers of two): 2^10 x 2^10 and its neighbours,
+\* sizes that do and do not divide into 2..3 blocks, primes, a tall and a wide grid
+ScaleGrids(full) == << <<1024, 1024>>, <<1024, 1025>>, <<1025, 1024>>, <<1200, 1501>>, <<1031, 1021>> >> \o
+                    (IF full THEN << <<1023, 1025>>, <<1500, 2000>>, <<1501, 1999>>, <<4099, 257>>, <<257, 4099>>, <<2048, 1024>>,
+                                     <<2049, 1023>>, <<1536, 1027>>, <<3, 3001>>, <<3001, 3>> >> ELSE <<>>)
+ScaleDegs == << <<0, 0>>, <<1, 2>>, <<3, 1>>, <<2, 3>> >>
+ScaleIvs  == << <<0, 2, 1, 3>>, <<-1, 1, -1, 1>>, <<-3, 1, 0, 1>>, <<2, 5, -2, 2>> >>
+InitB == Blank
+ChooseBlock == /\ phase = "start"
+               /\ \E ny \in 1..12 : \E nb \in 1..ny : c' = [k |-> "block", ny |-> ny, nb |-> nb]
+               /\ phase' = "block" /\ Keep
+ChooseScale == /\ phase = "start"
+               /\ \E g \in 1..Len(ScaleGrids(ScaleFull)) : \E d \in 1..Len(ScaleDegs) : \E v \in 1..Len(ScaleIvs) :
+                    LET G == ScaleGrids(ScaleFull)[g]  D == ScaleDegs[d]  I == ScaleIvs[v] IN
+                    c' = [k |-> "scale", nx |-> G[1], ny |-> G[2], dj |-> D[1], dk |-> D[2], ax |-> I[1], bx |-> I[2], ay |-> I[3], by |-> I[4],
+                          pts |-> G[1] * G[2], across |-> G[1] * G[2] > 1048576,
+                          exact |-> RMul(Moment(I[1], I[2], D[1]), Moment(I[3], I[4], D[2])),
+                          maxp |-> MaxAbsMono(I[1], I[2], D[1]) * MaxAbsMono(I[3], I[4], D[2]), told |-> TolDen]
+               /\ phase' = "scale" /\ Keep
+NextB == ChooseBlock \/ ChooseScale
+NextRPB == NextR \/ NextP \/ NextB        \* the three static sub-models in one run
+BlockRefines == phase = "block" => BlockCovers(c.ny, c.nb, BlockVariant)
+\* laws on rational rules: KVRules[1] (3 nodes) as the x rule, each KV rule as the y rule
+BlockLaws == phase = "block" =>
+    \A yr \in 1..Len(KVRules) : \A a \in 0..1 : \A b \in 0..2 :
+       LET rx == KVRules[1]  ry == KVRules[yr]
+           f(x, y) == RMul(RPowR(x, a), RPowR(y, b))
+       IN (c.ny = Len(ry)) =>
+          \* additive over the blocks of a covering loop
+          /\ TensorSum(rx, ry, f) = RSum([bl \in 1..c.nb |-> TensorRows(rx, ry, f, BlockRows(c.ny, c.nb, "ceil", bl))])
+          \* separable integrand: product of the two 1-d sums
+          /\ TensorSum(rx, ry, f) = RMul(PowerSum(rx, a), PowerSum(ry, b))
+
+\* ---- threads -------------------------------------------------------------------------------------
+\* c.sched = the interleaving so far; s = property-level thread state; m = shared object; last = verdict;
+\* pc[t] in "idle" | "configured" | "done", taken[t] = rule in hand after the configure step
+InitH == phase = "start" /\ c = NoCase /\ s = ThrNew(QNone) /\ m = MechNew(QNone) /\ last = [ok |-> TRUE, why |-> "none"]
+HConstruct == /\ phase = "start"
+              /\ \E target \in {"qgauss", "object"} : \E n \in ThrNpts \cup {QNone} :
+                    (target = "qgauss" => n = QNone) /\
+                    c' = [k |-> "thr", target |-> target, ctor |-> n, sched |-> <<>>,
+                          pc |-> [t \in 1..NThr |-> "idle"], taken |-> [t \in 1..NThr |-> QNone], arg |-> [t \in 1..NThr |-> QNone]]
+                    /\ s' = ThrNew(n) /\ m' = MechNew(n)
+              /\ phase' = "thr" /\ UNCHANGED last
+\* which mechanism a target runs under ThrVariant: "private" = the correct pair (qgauss() builds its own object, a shared
+\* object hands the rule back in one piece); "late" = both read the shared rule after configuring
+HVar == IF c.target = "qgauss" THEN ThrVariant ELSE (IF ThrVariant = "private" THEN "snap" ELSE ThrVariant)
+HStart == /\ phase = "thr"
+          /\ \E t \in 1..NThr : \E kind \in Kinds : \E arg \in ThrNpts \cup {QNone} :
+               /\ c.pc[t] = "idle"
+               /\ (t > 1 => c.pc[t - 1] # "idle")                            \* threads are interchangeable: start them in order
+               /\ (arg = QNone => (c.target = "object" /\ c.ctor # QNone))   \* a point count is always available
+               /\ m' = ThrMechStart(m, arg, HVar)
+               /\ c' = [c EXCEPT !.sched = Append(@, [op |-> "start", t |-> t, kind |-> kind, arg |-> arg]),
+                                 !.pc[t] = "configured", !.taken[t] = ThrMechTaken(m, arg, HVar), !.arg[t] = arg]
+               /\ s' = CHOOSE s2 \in ThrSucc(s, [op |-> "start", t |-> t, arg |-> arg]) : TRUE
+          /\ phase' = "thr" /\ last' = [ok |-> TRUE, why |-> "none"]
+HFinish == /\ phase = "thr"
+           /\ \E t \in 1..NThr :
+                /\ c.pc[t] = "configured"
+                /\ c' = [c EXCEPT !.sched = Append(@, [op |-> "finish", t |-> t, kind |-> "any", arg |-> c.arg[t]]), !.pc[t] = "done"]
+                /\ last' = [ok |-> ThrMechUsed(m, c.taken[t], HVar) \in ThrAllowed(s, c.arg[t]), why |-> "finish"]
+                /\ s' = [s EXCEPT !.open[t] = ThrIdle]
+           /\ phase' = "thr" /\ m' = m
+NextH == HConstruct \/ HStart \/ HFinish
+ThrRefines == last.ok
+
 \* ---- export -----------------------------------------------------------------------------------
 Export == DoExport =>
     /\ (phase = "mom")  => PrintT(<<"MOM", ToJson(c)>>)
@@ -293,4 +371,6 @@ Export == DoExport =>
     /\ (phase = "ret") => PrintT(<<"RET", ToJson(c)>>)
     /\ (phase = "drep") => PrintT(<<"DREP", ToJson(c)>>)
     /\ (phase = "etype") => PrintT(<<"ETYPE", ToJson(c)>>)
+    /\ (phase = "scale") => PrintT(<<"SCALE", ToJson(c)>>)
+    /\ (phase = "thr" /\ \A t \in 1..NThr : c.pc[t] = "done") => PrintT(<<"THR", ToJson([target |-> c.target, ctor |-> c.ctor, sched |-> c.sched])>>)
 =============================================================================
